@@ -205,6 +205,9 @@ def run(ctx):
                 kinds = list(modgen.KINDS) + list(modgen.REQ_MODULE_KINDS)
             else:
                 kinds = [rng.choice(modgen.KINDS + modgen.REQ_MODULE_KINDS) for _ in range(rng.randint(2, 9))]
+            if idx % 4 == 1:
+                # one doctest that leaves the process in another working directory, somewhere in front of the others
+                kinds.insert(rng.randrange(0, max(1, len(kinds) - 1)), rng.choice(modgen.SUBPROCESS_ONLY_KINDS))
             jobs.append((tmp, idx, kinds, rng.choice(['functions', 'mixed']), STYLES[idx % 3], OPTIONS[(idx // 3) % len(OPTIONS)]))
         # many failures in one module: the exit status is a small number that a process can report (256 failures are not "0")
         jobs.append((tmp, nmods, ['fail_output'] * 256 + ['pass'], 'functions', 'freeform', ''))
